@@ -1,4 +1,6 @@
 import PepperProofs.WellFormed
+import PepperProofs.SysPil
+import PepperProps.C02
 /-!
 # C09 — accepted programs are well formed; malformed ones never compile silently
 
@@ -169,6 +171,55 @@ theorem wellFormed_of_load (tbl : CodeTable) (stmts : List Pil.Stmt) (spec : Pil
     WellFormedPil stmts = true :=
   WellFormed.wellFormed_of_load tbl stmts spec h hbal
 
+/-! ### systems -/
+
+open Pepper.Sys Pepper.SysProofs in
+/-- **C09, systems.**  For every bundle of sources and every instance tree `load_file` returns (a component, a
+    system, systems of systems to any depth), the emitted specification — the statements of all instances under
+    their instance-path prefixes, followed by one `sequence` and one `equal` line per signal — is well formed: names
+    defined once and before use across the whole file, lengths consistent, structures balanced and sized, and the
+    members of every `equal` line of one length.  No hypothesis on the programs other than on the spelling of names
+    (`bundleNamesOk`: `UserNamesOk` for component sources; in system sources instance names without `-`, signal names
+    non-empty, not ending in `*`, without `-`) — a system whose signal is called `c-a` and whose instance `c` has a
+    sequence `a` genuinely emits one name twice. -/
+theorem output_wellformed_system (b : Bundle) (fuel : Nat) (base : String) (args : Nat) (argKey pfx path : String)
+    (includes : List String) (anon : Nat) (inst : Inst) (a' : Nat)
+    (h : Sys.loadFile b fuel base args argKey pfx path includes anon = .ok (inst, a'))
+    (hnames : bundleNamesOk b = true) : WellFormedPil (Emit.instStmts inst) = true := by
+  obtain ⟨d, ports, _, _, hI⟩ := tree_full (tableOfBundle b) b (bundleOk_tableOfBundle hnames) fuel base args argKey pfx
+    path includes anon inst a' h
+  obtain ⟨spec, hl, _, _⟩ := hI.load
+  exact WellFormed.wellFormed_of_load _ _ spec hl hI.bal
+
+open Pepper.Sys Pepper.SysProofs in
+/-- the property's wording, for systems -/
+theorem rejects_or_wellformed_system (b : Bundle) (fuel : Nat) (base : String) (args : Nat) (argKey pfx path : String)
+    (includes : List String) (anon : Nat) (hnames : bundleNamesOk b = true) :
+    (∃ e, Sys.loadFile b fuel base args argKey pfx path includes anon = .error e) ∨
+    (∃ inst a', Sys.loadFile b fuel base args argKey pfx path includes anon = .ok (inst, a') ∧
+      WellFormedPil (Emit.instStmts inst) = true) := by
+  cases h : Sys.loadFile b fuel base args argKey pfx path includes anon with
+  | error e => exact Or.inl ⟨e, rfl⟩
+  | ok r =>
+    obtain ⟨inst, a'⟩ := r
+    exact Or.inr ⟨inst, a', rfl, output_wellformed_system b fuel base args argKey pfx path includes anon inst a' h hnames⟩
+
+open Pepper.Sys Pepper.SysProofs in
+/-- **arity, through `load_file`** (= `Pepper.C02.arity_checked`): whatever `load_file` accepts was instantiated with
+    as many arguments as the resolved file declares parameters — a component … -/
+theorem arity_checked_file (b : Bundle) (fuel : Nat) (base : String) (args : Nat) (argKey pfx path : String)
+    (includes : List String) (anon : Nat) (inst : Inst) (a' : Nat)
+    (h : Sys.loadFile b fuel base args argKey pfx path includes anon = .ok (inst, a')) :
+    ∃ fname issys newPath,
+      resolveImport (fun p => b.exists_.contains (normPath p)) base path includes = .ok (fname, issys, newPath) ∧
+      ((∃ c, b.files.lookup (normPath fname ++ argKey) = some (.comp c) ∧ c.params.length = args) ∨
+       (∃ s, b.files.lookup (normPath fname ++ argKey) = some (.sys s) ∧ s.params.length = args)) := by
+  obtain ⟨_, fname, issys, newPath, _, hr, hc⟩ := Pepper.C02.arity_checked b fuel base args argKey pfx path includes anon inst a' h
+  refine ⟨fname, issys, newPath, hr, ?_⟩
+  rcases hc with ⟨c, _, hl, _, hp, _⟩ | ⟨s, _, hl, _, hp, _⟩
+  · exact Or.inl ⟨c, hl, hp⟩
+  · exact Or.inr ⟨s, hl, hp⟩
+
 /-! ### non-vacuity -/
 
 /-- two atomic sequences (one with a wildcard), two strands (one with a declared length), a DOMAIN-LEVEL structure -/
@@ -219,5 +270,27 @@ example : (match Comp.load { exSrc with stmts := exSrc.stmts.take 2 ++ [.strand 
 example : (match Comp.load { exSrc with stmts := exSrc.stmts.take 2 ++ [.strand false "X" [.ref "a" false, .ref "bb" false] none] } 0 "c-" 0 with
     | .error .undefinedSeq => true | _ => false) = true := by decide +kernel
 example : (match Comp.load exSrc 1 "c-" 0 with | .error .arity => true | _ => false) = true := by decide +kernel
+
+/-- the hypothesis `UserNamesOk` is necessary: with a user sequence named like the compiler's first anonymous
+    sequence, the quoted region `"3N"` of strand `X` is looked up under that name, found (the user's, of length 5) and
+    not registered; the output is accepted and is NOT well formed — strand `X` has length 5, its structure 3 -/
+def reservedNameSrc : Comp.Src :=
+  { name := "c", params := [], inputs := [], outputs := [],
+    stmts := [.seq "_Anon0" [.nuc "5N".toList] none, .strand false "X" [.nuc "3N".toList] none,
+              .struct .default "T" ["X"] false "...".toList] }
+example : UserNamesOk reservedNameSrc = false := by decide +kernel
+example : (Comp.load reservedNameSrc 0 "" 0).toOption.map (fun r => Emit.compStmts r.1) =
+    some [.seq "_Anon0" "NNNNN".toList, .strand "X" false ["_Anon0"], .struct "T" (some "1nt") ["X"] "...".toList] := by
+  decide +kernel
+example : (Comp.load reservedNameSrc 0 "" 0).toOption.map (fun r => WellFormedPil (Emit.compStmts r.1)) = some false := by
+  decide +kernel
+
+/-- systems: the hypothesis holds for the example bundle of C02, and the emitted statements of its instance tree
+    (instances `g1-…`, `g2-…`, signals `s0 s1 s2` with their `equal` lines) are well formed -/
+example : Pepper.SysProofs.bundleNamesOk Pepper.C02.exBundle = true := by decide +kernel
+example : Pepper.C02.exTree.map (fun i => WellFormedPil (Emit.instStmts i)) = some true := by decide +kernel
+/-- … and a signal name containing the path separator is excluded by the hypothesis -/
+example : Pepper.SysProofs.sysNamesOk { Pepper.C02.exSys with
+    stmts := [.component "g1" "gate" 0 [⟨"g2-a", false⟩] [⟨"s1", false⟩]] } = false := by decide +kernel
 
 end Pepper.C09
